@@ -18,6 +18,7 @@ import (
 	"net"
 	"os"
 	"os/exec"
+	"runtime"
 	"strings"
 	"sync"
 	"sync/atomic"
@@ -32,6 +33,35 @@ import (
 // TestVerifC09 runs the stress in a child process: a panic or runtime fatal
 // error in a goroutine of the code under test (which ends the process) is then a
 // verdict with its stack, not a harness failure.
+// c09BlockedRepoGoroutines returns the goroutines of a runtime dump that have been
+// waiting for minutes and have a frame of the code under test on their stack.
+func c09BlockedRepoGoroutines(dump string) []string {
+	var r []string
+	for _, g := range strings.Split(dump, "\n\n") {
+		head := strings.SplitN(g, "\n", 2)[0]
+		if !strings.HasPrefix(head, "goroutine ") || !strings.Contains(head, "minutes]") {
+			continue
+		}
+		repo := false
+		for _, line := range strings.Split(g, "\n") {
+			// a frame of the code under test that is not a frame of this harness
+			if strings.Contains(line, "ochinchina/sipproxy.") && !strings.Contains(line, "TestVerif") && !strings.Contains(line, "TestMain") && !strings.Contains(line, "sipproxy.vf") && !strings.Contains(line, "sipproxy.c0") && !strings.Contains(line, "sipproxy.c1") && !strings.Contains(line, "sipproxy.(*vf") && !strings.Contains(line, "sipproxy.newVf") {
+				repo = true
+			}
+		}
+		if repo {
+			if len(g) > 900 {
+				g = g[:900]
+			}
+			r = append(r, g)
+		}
+		if len(r) >= 6 {
+			break
+		}
+	}
+	return r
+}
+
 type c09Sink struct{ addr string }
 
 func (b *c09Sink) Send(*Message) error { return nil }
@@ -44,8 +74,41 @@ func TestVerifC09(t *testing.T) {
 		cmd.Env = append(os.Environ(), "VF_C09_CHILD=1", "GOTRACEBACK=all")
 		var out bytes.Buffer
 		cmd.Stdout, cmd.Stderr = &out, &out
-		err := cmd.Run()
+		var err error
+		stalled := false
+		if err = cmd.Start(); err == nil {
+			done := make(chan error, 1)
+			go func() { done <- cmd.Wait() }()
+			bound := time.Duration(ev.Pick(6, 45)) * time.Minute
+			select {
+			case err = <-done:
+			case <-time.After(bound):
+				// far beyond anything a healthy run needs: ask the runtime for a goroutine dump
+				stalled = true
+				cmd.Process.Signal(syscall.SIGQUIT)
+				select {
+				case err = <-done:
+				case <-time.After(30 * time.Second):
+					cmd.Process.Kill()
+				}
+			}
+		}
 		text := out.String()
+		if stalled {
+			run := ev.New("C09", "exploration", "in-process stress of the program's real sharing patterns (child process stalled)")
+			run.Eval("child-stalled")
+			run.Eval("child-stalled-2")
+			// a verdict only if the dump shows goroutines of the code under test blocked for minutes
+			blocked := c09BlockedRepoGoroutines(text)
+			if len(blocked) > 0 {
+				run.Violation("goroutines of the proxy block each other for good (no progress under concurrent load)", map[string]any{"blocked_for_minutes": blocked})
+			} else {
+				run.Inconclusive(1)
+				fmt.Println("INCONCLUSIVE C09 in-package stress did not finish within its watchdog but no goroutine of the code under test is blocked")
+			}
+			vfFinish(t, run, 1)
+			return
+		}
 		for _, line := range strings.Split(text, "\n") {
 			if strings.HasPrefix(line, "VIOLATION") || strings.HasPrefix(line, "SUMMARY") || strings.HasPrefix(line, "KNOWN-FINDING") || strings.HasPrefix(line, "EVIDENCE-WRITE-FAILED") {
 				fmt.Println(line)
@@ -84,7 +147,7 @@ func TestVerifC09(t *testing.T) {
 			"(c) host-name registration by several listeners concurrent with resolution results and their notification goroutines; (d) rotation membership driven by resolution results while the loop dispatches to UDP and TCP backends (backends closed while sends are in progress); oracle = deduplicated race reports of this process + panics; distinct = stress patterns x rounds")
 	dynamicHostResolver.Stop()
 	dynamicHostResolver = &DynamicHostResolver{interval: time.Hour, stop: 1, hostIPs: make(map[string]*AddressWithCallback)}
-	rounds := ev.Pick(12, 120)
+	rounds := ev.Pick(8, 100)
 	var ops int64
 	for round := 0; round < rounds; round++ {
 		// (a) shared learned-route table, two loops
@@ -186,7 +249,10 @@ func TestVerifC09(t *testing.T) {
 			go func() {
 				defer wg.Done()
 				r := rand.New(rand.NewSource(int64(round)))
-				for k := 0; k < 500; k++ {
+				// (at most ~800 change events in total: the proxy's change queue holds 1000 and
+				// the resolver's real cadence is one round per 2 s - a flood beyond the queue
+				// is not a schedule the program can see, see DESIGN.md B.6)
+				for k := 0; k < 100; k++ {
 					n := r.Intn(4)
 					var set []string
 					for j := 0; j < n; j++ {
@@ -194,9 +260,7 @@ func TestVerifC09(t *testing.T) {
 					}
 					dynamicHostResolver.addressResolved(host, set, nil)
 					atomic.AddInt64(&ops, 1)
-					if k%8 == 0 {
-						time.Sleep(100 * time.Microsecond)
-					}
+					time.Sleep(time.Duration(200+r.Intn(600)) * time.Microsecond)
 				}
 				close(stop)
 			}()
@@ -217,6 +281,44 @@ func TestVerifC09(t *testing.T) {
 				}
 			}
 			wg.Wait()
+			// bounded progress: with the churn over, the loop must still relay. The set is
+			// pointed at an address where a sink listens and a marker request must arrive.
+			sinkIP := fmt.Sprintf("127.5.%d.99", round)
+			sinks := newVfSinks()
+			if sinks.listenUDP(sinkIP+":7000") == nil {
+				delivered := false
+				for try := 0; try < 120 && !delivered; try++ {
+					dynamicHostResolver.addressResolved(host, []string{sinkIP}, nil)
+					id := fmt.Sprintf("live%d-%d", round, try)
+					m := fmt.Sprintf("OPTIONS sip:svc.verif.test SIP/2.0\r\nVia: SIP/2.0/UDP 127.5.9.9:5060;branch=z9hG4bK%s\r\nFrom: <sip:a@x>;tag=1\r\nTo: <tel:+1>\r\nCall-ID: %s\r\nCSeq: 1 OPTIONS\r\nX-Vf-Probe: %s\r\nContent-Length: 0\r\n\r\n", id, id, id)
+					injected := make(chan struct{})
+					go func() { fx.inject("127.5.9.9", 5060, []byte(m)); close(injected) }()
+					select {
+					case <-injected:
+					case <-time.After(5 * time.Second):
+					}
+					delivered = len(sinks.wait(id, 1, 150*time.Millisecond)) > 0
+				}
+				sinks.close()
+				if !delivered {
+					buf := make([]byte, 1<<20)
+					buf = buf[:runtime.Stack(buf, true)]
+					var stuck []string
+					for _, gs := range strings.Split(string(buf), "\n\n") {
+						if strings.Contains(gs, "receiveAndProcessMessage") || strings.Contains(gs, "hostIPChanged") || strings.Contains(gs, "notifyAddressChanged") {
+							if len(gs) > 1500 {
+								gs = gs[:1500]
+							}
+							stuck = append(stuck, gs)
+						}
+					}
+					if len(stuck) > 8 {
+						stuck = stuck[:8]
+					}
+					run.Violation("after backend membership changes under load the proxy loop no longer relays (bounded progress: 120 markers over 18 s+)", map[string]any{"round": round, "goroutines": stuck})
+					break
+				}
+			}
 		}
 		run.Eval(fmt.Sprintf("round%d", round))
 		time.Sleep(20 * time.Millisecond)
